@@ -154,7 +154,8 @@ func (m *C07Monitor) AfterPass(r *Runner, pv *PassView) error {
 					return Violf("C07", "revision-spec-rewritten", "pass %d: the template of existing revision %s was changed", pv.P.ID, c.Key)
 				}
 			}
-			if c.Verb != "create" || c.Err != "" {
+			if c.Verb != "create" || (c.Err != "" && !(c.Injected && c.Pre == nil && c.Post != nil)) {
+				// (a create whose response was lost still took effect: Post is set, Err too)
 				continue
 			}
 			m.Creates++
